@@ -16,4 +16,22 @@ PROPS = {
              "bound": "all byte strings of length 6, any start <= 6", "timeout": 200, "quick": False},
         ],
     },
+    "C13": {
+        "files": ["a2lfile/src/itemlist.rs"],
+        "trusted": T_STD + ["std HashMap modelled as an association list with the std contract (iteration order = insertion order)"],
+        "assumptions": ["names are unique (stated by the property); item type is a harness-defined struct {name, tag} implementing A2lObjectName/A2lObjectNameSetter",
+                        "pre-states: every list of 0..=3 items with symbolic, pairwise distinct one-byte names over {a,b,c,d}, built by the real push; induction over histories relies on this set being closed under the operations (checked by the post-condition being the same invariant)"],
+        "jobs": [
+            {"engine": "E2", "module": "itemlist", "harness": h, "functions": ["itemlist::ItemList::" + f], "timeout": 200,
+             "bound": "one call from every list of <= 3 items; every argument symbolic (names over {a,b,c,d,z}, indices any usize)",
+             "must_cover": mc}
+            for h, f, mc in [
+                ("h_il_push", "push", ["pre-state with 3 items"]), ("h_il_pop", "pop", []),
+                ("h_il_swap_remove", "swap_remove", ["single-element list"]), ("h_il_swap_remove_idx", "swap_remove_idx", []),
+                ("h_il_retain", "retain", []), ("h_il_truncate", "truncate", []), ("h_il_sort_by", "sort_by", []),
+                ("h_il_rename_item", "rename_item", []), ("h_il_extend", "extend", []), ("h_il_clear", "clear", []),
+                ("h_il_collect_clone_eq", "from_iter/clone/eq/first/last", []), ("h_il_get_mut_index_str", "get_mut/Index<&str>", []),
+            ]
+        ],
+    },
 }
